@@ -36,9 +36,9 @@ var schedExploreAssume = []string{
 
 func init() {
 	cfgs["C17"] = checkCfg{
-		Variant: "sched", Validate: false,
+		Variant: "sched", Validate: false, RaceID: "C17R",
 		Budget: dur(170, 1700),
-		Rule:   "stateless depth-first exploration of ALL schedules of the real VM (cores as threads of a cooperative scheduler) within a delay bound (quick 2, thorough 3 non-default scheduling choices) for programs that spawn 1-3 cores, share globals, spawn from spawned cores and die with fatal errors; states = executions explored, transitions = scheduling choice points passed; every violating schedule is replayed twice and must reproduce; distinct = distinct (scenario, host-visible observation, final scheduler state) records",
+		Rule:   "stateless depth-first exploration of ALL schedules of the real VM (cores as threads of a cooperative scheduler) within a delay bound (quick 3, thorough 4 non-default scheduling choices) for programs that spawn 1-3 cores, share globals, spawn from spawned cores and die with fatal errors; states = executions explored, transitions = scheduling choice points passed; every violating schedule is replayed twice and must reproduce; distinct = distinct (scenario, host-visible observation, final scheduler state) records. Auxiliary, NOT exhaustive: the same programs run free with real goroutines on a -race build (GOMAXPROCS 1/2/16 x 12 repetitions); any race-detector report is a violation",
 		Assume: schedExploreAssume,
 	}
 }
